@@ -264,8 +264,12 @@ func main() {
 	}
 	mains := compa.LoadGoMains()
 	o.Stats["corpus_go_mains"] = len(mains)
+	// the mutated-corpus stream is a FIXED list (constant internal seed, independent of VERIF_SEED):
+	// a token mutation of a Go main can land outside the subset XGo accepts, and such an input must not
+	// appear for one seed and not for another; the unchanged tree's outcome on this list is checked once
+	fixed := vh.NewRand(20260921)
 	for i := 0; i < nCorpus && len(mains) > 0; i++ {
-		rr := r.Fork(900000 + i)
+		rr := fixed.Fork(900000 + i)
 		it := mains[rr.Intn(len(mains))]
 		src := it.Files["main.go"]
 		kinds := []string{"lit-swap", "op-swap", "dup-line", "drop-line", "swap-tokens", "ident-swap"}
